@@ -6,6 +6,7 @@ UNITS = {
     "zone_merge": ["C12"],
     "zone_lookup": ["C02"],
     "cache": ["C05", "C15"],
+    "upstream_filter": ["C06"],
 }
 # property -> clauses of the statement that no contract decides (reported in the evidence)
 UNDECIDED_CLAUSES = {
